@@ -353,6 +353,8 @@ static res_t do_op(rset_t *r, const char *op, char *args)
 						}
 						if (p2 + sz <= size)
 							memcpy(b + p2, blk, sz);
+						else if (getenv("VERIF_C10_STRICT"))
+							bad = 3;   /* an image the library wrote: a block never holds more than what is left of the file */
 						free(blk);
 						/* a short block is padded with zeros up to the block size */
 						p2 += r->super.block_size;
@@ -369,6 +371,8 @@ static res_t do_op(rset_t *r, const char *op, char *args)
 							free(blk);
 							if (memcmp(a, b, size) != 0)
 								bad = 2;
+							if (getenv("VERIF_C10_STRICT") && base + sz != size && sz > 0)
+								bad = 3;   /* blocks + fragment add up to the file size */
 						}
 					}
 				}
